@@ -55,6 +55,7 @@ SAME_METHODS = {"clone", "to_owned", "borrow", "borrow_mut", "as_ref", "as_mut",
 UNWRAP_METHODS = {"unwrap", "expect", "unwrap_or_default", "unwrap_or_else", "unwrap_or", "unwrap_unchecked"}
 RESULTISH_METHODS = {"ok_or", "ok_or_else", "with_context", "context", "map_err", "ok"}
 ENTRY_METHODS = {"or_default", "or_insert", "or_insert_with", "or_insert_with_key"}
+GET_METHODS = {"get", "get_mut", "remove", "get_key_value", "remove_entry", "entry"}
 INT_TYPES = {"u8", "u16", "u32", "u64", "u128", "usize", "i8", "i16", "i32", "i64", "i128", "isize",
              "NonZeroU16", "NonZeroU32", "NonZeroUsize", "EstIdx", "LinkIdx", "TrainIdx", "bool", "String", "&str", "str"}
 FOLD_RE = re.compile(r"\.(fold|sum|product|reduce|try_fold|rfold|try_rfold|scan|fold_while)(::<[^>]*>)?\(")
@@ -131,6 +132,9 @@ REVIEWED = [
      "ORDER-SENSITIVE (join paths are pushed in set order and the first best speed match wins) but the order is a "
      "function of the inserted EstIdx values only: BuildNoHashHasher has no state"),
 ]
+
+
+KNOWN_CONTAINER_METHODS = SCALAR_METHODS | SAME_METHODS | GET_METHODS | ITER_METHODS
 
 
 class ScanProblem(Exception):
@@ -423,9 +427,14 @@ class FnDef:
 
 
 def remove_cfg_test(f):
-    """blank every item under #[cfg(test)] (unit tests are not part of the library's behaviour)"""
+    """blank every item under #[cfg(test)] (unit tests are not part of the library's behaviour) and under
+    #[cfg(feature = "verif-hooks")] (add-only observation hooks of /verif, compiled out by default)"""
     code = f.code
-    for m in list(re.finditer(r"#\s*\[\s*cfg\s*\(\s*test\s*\)\s*\]", code)):
+    for m in list(re.finditer(r"#\s*\[\s*cfg\s*\(\s*(?:test|feature\s*=\s*\"[^\"]*\")\s*\)\s*\]", code)):
+        if "feature" in m.group(0):
+            lit = [c for (a, b, c) in f.strings if m.start() < a < m.end()]
+            if lit != ["verif-hooks"]:
+                continue
         k = m.end()
         # skip further attributes
         while True:
@@ -496,7 +505,8 @@ def parse_items(crate, f):
                 fm = re.match(r"^(r#)?(\w+)\s*:\s*(.+)$", p, re.S)
                 if fm:
                     attrs = " ".join(re.findall(r"#\s*\[[^\]]*\]", piece))
-                    fields[fm.group(2)] = (squash(fm.group(3)), piece, attrs, k + 1 + code[k + 1:e].find(piece.strip()[:20] if piece.strip() else ""))
+                    fpm = re.search(r"\b" + re.escape(fm.group(2)) + r"\s*:", code[k + 1:e])
+                    fields[fm.group(2)] = (squash(fm.group(3)), piece, attrs, k + 1 + (fpm.start() if fpm else 0))
         elif code[k] == "(":
             e = match_close(code, k)
             for idx, piece in enumerate(split_top(code[k + 1:e])):
@@ -727,7 +737,6 @@ class Env:
 class Typer:
     def __init__(self, crate, f, fd, env):
         self.crate, self.f, self.fd, self.env = crate, f, fd, env
-        self.sites = []   # (offset_in_file or None, family, elem, method)
 
     def struct_field(self, ty, name):
         h = type_head(self.crate.expand(ty))
@@ -778,9 +787,8 @@ class Typer:
             return a[0] if a else None
         return t
 
-    def type_of(self, expr, pos, base=None):
-        """type text of a postfix chain, or None.  `base` = absolute offset of expr in the file
-        (sites found while walking the chain are recorded only when it is given)."""
+    def type_of(self, expr, pos):
+        """type text of a postfix chain (as far as the reader can tell), or None"""
         expr = expr.strip()
         if not expr:
             return None
@@ -876,10 +884,6 @@ class Typer:
                 if fam:
                     k, v = self.crate.kv(cur)
                     if name in ITER_METHODS:
-                        elem = {"values": v, "values_mut": v, "into_values": v, "keys": k, "into_keys": k}.get(
-                            name, k if v is None else f"({k},{v})")
-                        if base is not None:
-                            self.sites.append((base + (len(expr) - len(expr.lstrip())) + self._seg_off(expr, seg), fam, elem, name))
                         cur = ITER_MARK
                     elif name in ("get", "get_mut", "remove", "get_key_value", "remove_entry"):
                         cur = f"Option<{v if v is not None else k}>"
@@ -907,19 +911,6 @@ class Typer:
                 else:
                     cur = self.fn_ret(name, cur)
         return cur
-
-    @staticmethod
-    def _seg_off(expr, seg):
-        # offset of the method's '.' inside the stripped/prefix-less chain: recompute against expr
-        s = expr.strip()
-        lead = 0
-        while True:
-            m = re.match(r"^(&\s*mut\b|&|\*|\bmut\b)\s*", s[lead:])
-            if m and m.end() > 0:
-                lead += m.end()
-            else:
-                break
-        return lead + seg[3]
 
 
 # --------------------------------------------------------------------------------------------------
@@ -1112,18 +1103,26 @@ def scan_fn(crate, f, fd, out):
     # (1) iteration methods
     for m in re.finditer(r"\.\s*(\w+)\s*(::\s*<[^;{}]*?>)?\s*\(", code[a:b]):
         name = m.group(1)
-        if name not in ITER_METHODS:
-            continue
         dot = a + m.start()
         if in_nested(dot):
             continue
-        rs = receiver_start(code, dot)
+        try:
+            rs = receiver_start(code, dot)
+        except ScanProblem as e:
+            crate.problems.append((f.rel, f.line(dot), fd.name, str(e)))
+            continue
         recv = code[rs:dot]
         t = None
         try:
             t = typer.type_of(recv, dot)
         except ScanProblem as e:
             crate.problems.append((f.rel, f.line(dot), fd.name, str(e)))
+        if name not in ITER_METHODS:
+            # every method applied to a hash container must be one the reader knows the meaning of
+            if t and crate.family(t) and name not in KNOWN_CONTAINER_METHODS:
+                crate.problems.append((f.rel, f.line(dot), fd.name,
+                                       f"method `{name}` on a hash container is not classified"))
+            continue
         fam = crate.family(t) if t else None
         if fam:
             k, v = crate.kv(t)
@@ -1207,23 +1206,20 @@ def scan_fn(crate, f, fd, out):
             s, e = pos, match_close(code, k) + 1
         else:
             s, e = enclosing_statement(code, fd.body, pos)
-        stmt = squash(code_with_strings_blank(f, s, e))
+        stmt = squash(code[s:e])
         key = (s, e)
         if key in seen:
             continue
         seen.add(key)
         body_txt = stmt
-        folds = bool(FOLD_RE.search(body_txt)) or (how == "for" and bool(ACC_ASSIGN_RE.search(body_txt)))
+        in_loop = how == "for" or re.match(r"^(for|while|loop)\b", body_txt) is not None
+        folds = bool(FOLD_RE.search(body_txt)) or (in_loop and bool(ACC_ASSIGN_RE.search(body_txt)))
         floaty = bool(re.search(r"\bf64\b|\bf32\b|\bsi::|\buc::|\d\.\d*|\d\.(?!\w)", body_txt))
         elem_int = elem_is_int(elem) and not floaty
         out.append({
             "file": f.rel, "line": f.line(pos), "fn": fd.name, "stmt": stmt, "container": fam,
             "elemTy": elem or "?", "folds": folds, "elemInt": elem_int, "how": how,
         })
-
-
-def code_with_strings_blank(f, s, e):
-    return f.code[s:e]
 
 
 # --------------------------------------------------------------------------------------------------
@@ -1300,7 +1296,7 @@ def scan(repo):
                 fam = crate.family(fty) or crate.family(w)
                 k, v = crate.kv(fty) if crate.family(fty) else ("?", "?")
                 sites.append({
-                    "file": sd.file.rel, "line": sd.file.line(sd.pos), "fn": "struct " + sd.name,
+                    "file": sd.file.rel, "line": sd.file.line(fpos), "fn": "struct " + sd.name,
                     "stmt": squash(strip_attrs(piece)), "container": fam, "elemTy": k if v is None else f"({k},{v})",
                     "folds": False, "elemInt": True, "how": "serialize-field",
                 })
@@ -1415,6 +1411,9 @@ def regen(root, repo="/repo"):
         sites = [{"file": "", "line": 0, "fn": "", "stmt": "SCANNER: crashed: %s: %s" % (type(e).__name__, e),
                   "container": "unresolved", "elemTy": "?", "folds": False, "elemInt": False, "just": "unreviewed"}]
         foreign, stale = [], []
+    for s in sites:
+        if s["just"] == "unreviewed":
+            print("C18 order-sites: UNREVIEWED %s:%s fn=%s [%s] %s" % (s["file"], s["line"], s["fn"], s["container"], s["stmt"][:300]))
     txt = render(sites, foreign, stale)
     os.makedirs(os.path.dirname(out), exist_ok=True)
     if not os.path.exists(out) or open(out).read() != txt:
